@@ -71,5 +71,14 @@ structure Inv (g : Glyph) : Prop where
 /-- the invariant for all containers of a world -/
 def WInv (w : World) : Prop := ∀ g ∈ w.conts, Inv g
 
+/-- The single-object operations: everything that introduces one object or one identifier. -/
+def Op.single : Op → Bool
+  | .insContour .. | .reinsContour .. | .insPoint .. | .addPoint .. | .setContourId .. | .genContourId ..
+  | .genPointId .. | .insComp .. | .reinsComp .. | .setCompId .. | .genCompId .. | .insAnchor ..
+  | .reinsAnchor .. | .setAnchorId .. | .genAnchorId .. | .insGuide .. | .reinsGuide .. | .setGuideId ..
+  | .genGuideId .. => true
+  | _ => false
+
+
 end Ident
 end DefconModel
